@@ -880,6 +880,7 @@ func goFileTexts(g *genBranch, sub map[int]string) (map[bool]*goText, string) {
 				if sub != nil && len(e.Args) >= 3 {
 					// the i-th %s receives the i-th printed operand: m[2] (failing group) or m[3] (name group)
 					ops := splitTop(strings.TrimSuffix(strings.TrimPrefix(e.Args[2], "["), "]"))
+					var vals []string
 					for _, o := range ops {
 						v := "Abc1"
 						switch {
@@ -888,10 +889,16 @@ func goFileTexts(g *genBranch, sub map[int]string) (map[bool]*goText, string) {
 						case strings.HasSuffix(o, "[3]"):
 							v = sub[3]
 						}
-						f = strings.Replace(f, "%s", v, 1)
+						vals = append(vals, v)
 					}
+					f = fillVerbs(f, func(k int) string {
+						if k >= 0 && k < len(vals) {
+							return vals[k]
+						}
+						return "Abc1"
+					})
 				}
-				f = strings.ReplaceAll(f, "%s", "Abc1")
+				f = fillVerbs(f, func(int) string { return "Abc1" })
 				f = strings.ReplaceAll(f, "%%", "\x00")
 				if strings.Contains(f, "%") {
 					ok, undec = false, "a format verb other than %s in "+e.Args[1]
@@ -1133,17 +1140,55 @@ func splitTop(s string) []string {
 // the name group, \x00 for anything else.
 func substGroups(format, ops, g2, g3 string) string {
 	list := splitTop(strings.TrimSuffix(strings.TrimPrefix(ops, "["), "]"))
-	for _, o := range list {
-		v := "\x00"
-		switch o {
-		case g2:
-			v = "\x02"
-		case g3:
-			v = "\x03"
+	val := func(k int) string {
+		if k < 0 || k >= len(list) {
+			return "\x00"
 		}
-		format = strings.Replace(format, "%s", v, 1)
+		switch list[k] {
+		case g2:
+			return "\x02"
+		case g3:
+			return "\x03"
+		}
+		return "\x00"
 	}
-	return format
+	return fillVerbs(format, val)
+}
+
+// fillVerbs substitutes the string verbs of a format: %s takes the next operand, %[k]s takes operand k (1-based)
+// and moves the cursor behind it; %% and every other verb are left as they are.
+func fillVerbs(format string, val func(k int) string) string {
+	var out strings.Builder
+	next := 0
+	for i := 0; i < len(format); i++ {
+		if format[i] != '%' || i+1 >= len(format) {
+			out.WriteByte(format[i])
+			continue
+		}
+		if format[i+1] == '%' {
+			out.WriteString("%%")
+			i++
+			continue
+		}
+		if format[i+1] == 's' {
+			out.WriteString(val(next))
+			next++
+			i++
+			continue
+		}
+		if format[i+1] == '[' {
+			if e := strings.IndexByte(format[i:], ']'); e > 0 && i+e+1 < len(format) && format[i+e+1] == 's' {
+				if k, err := strconv.Atoi(format[i+2 : i+e]); err == nil {
+					out.WriteString(val(k - 1))
+					next = k
+					i += e + 1
+					continue
+				}
+			}
+		}
+		out.WriteByte(format[i])
+	}
+	return out.String()
 }
 
 func showGroups(s string) string {
